@@ -116,7 +116,9 @@ def one_case(ctx, rng, wd):
     from PyMatterSim.neighbors.calculate_neighbors import Nnearests
     d = int(rng.choice([2, 3]))
     N = int(rng.integers(3, 41))
-    T = int(rng.choice([2, 3, 4, 5, 6, 8]))
+    T = int(rng.choice([2, 3, 4, 5, 6, 8, 3, 5, 8, 13, 21]))
+    if T > 8:
+        N = min(N, 16)
     kind = str(rng.choice(["ballistic", "diffusive", "arrested", "mixed"]))
     L = rng.uniform(4.0, 9.0, size=d)
     if rng.random() < 0.3:
@@ -144,8 +146,9 @@ def one_case(ctx, rng, wd):
     dt = float(rng.choice([0.002, 0.005, 1.0]))
     qconst = float(rng.choice([2 * np.pi, 7.25, 1.0]))
     cell = {"H": np.diag(L), "L": L, "origin": lo, "tilt": (0, 0, 0), "kind": "ortho", "d": d}
-    xu_snaps = gc.snapshots_from([gc.snapshot_from(cell, None, types, int(ts[t]), positions=XU[t]) for t in range(T)])
-    x_snaps = gc.snapshots_from([gc.snapshot_from(cell, None, types, int(ts[t]), positions=X[t]) for t in range(T)])
+    layout = str(np.random.default_rng([N, T, int(types.sum()), int(abs(XU[0, 0, 0]) * 1e9)]).choice(gc.LAYOUTS))
+    xu_snaps = gc.snapshots_from([gc.snapshot_from(cell, None, types, int(ts[t]), positions=XU[t], layout=layout) for t in range(T)])
+    x_snaps = gc.snapshots_from([gc.snapshot_from(cell, None, types, int(ts[t]), positions=X[t], layout=layout) for t in range(T)])
     nlkind = str(rng.choice(["none", "none", "own", "repo"]))
     if N < 4:
         nlkind = "none" if nlkind == "repo" else nlkind
@@ -194,7 +197,7 @@ def one_case(ctx, rng, wd):
         ctx.skip("relaxation")
         return
     cls = f"{variant}/{mode}/{d}D/{kind}/{'slow' if slow else 'fast'}/sel-{selkind}/nl-{nlkind}"
-    info = lambda: {"class": cls, "T": T, "N": N, "timesteps": ts, "dt": dt, "L": L, "origin": lo, "diameters": diam_map, "a": a,  # noqa: E731
+    info = lambda: {"class": cls, "layout": layout, "T": T, "N": N, "timesteps": ts, "dt": dt, "L": L, "origin": lo, "diameters": diam_map, "a": a,  # noqa: E731
                     "qconst": qconst, "types": types, "XU": XU if XU.size <= 600 else "omitted", "condition": cond, "lists": lists if N <= 12 else "omitted"}
     klass = Dynamics if variant == "linear" else LogDynamics
     key = ("Dynamics" if variant == "linear" else "LogDynamics") + ".relaxation/" + mode + ("/cage" if lists else "") + ("/fast" if not slow else "") + ("/sel" if cond is not None else "")
